@@ -589,7 +589,9 @@ class SpectralDensity(DFunction, UnitsManaged):
         """Creates a copy of the current correlation function
 
         """
-        return SpectralDensity(self.axis, self.params)
+        # the stored parameters are in internal units
+        with energy_units("int"):
+            return SpectralDensity(self.axis, self.params)
 
 
     def get_CorrelationFunction(self, temperature=None, ta=None):
